@@ -212,7 +212,8 @@ def rmw(ctx, f, cfg):
             recv = sl.of_operand(t["args"][0])
             flds = sorted({x[6:].split("::")[-1] for x in recv if x.startswith("field:") and ("Atomic" in (_fty(f, x[6:]) or "") or "EnumMap" in (_fty(f, x[6:]) or ""))})
             for fl in flds:
-                ops.setdefault(fl, []).append((a, const_val(t["args"][1]) if len(t["args"]) > 1 and a in ("store", "fetch_add", "fetch_sub") else None))
+                ops.setdefault(fl, []).append((a if not (a.startswith("compare_exchange") and not b.in_loop(bb)) else "compare_exchange(not retried)",
+                                               const_val(t["args"][1]) if len(t["args"]) > 1 and a in ("store", "fetch_add", "fetch_sub") else None))
         for fl, lst in ops.items():
             per_field.setdefault(fl, {})[p] = lst
     n = 0
@@ -230,7 +231,9 @@ def rmw(ctx, f, cfg):
             if exempt:
                 ctx.instance("C14.rmw/exempt", "%s in %s" % (fl, p), sorted(kinds), "exempt: " + exempt, True, cfg)
                 continue
-            ok = not lost and not nonconst_store and not ("compare_exchange" in kinds and "load" not in kinds and False)
+            # a compare-and-swap that is not retried in a loop silently drops the update when another thread got in between
+            single_cas = "compare_exchange(not retried)" in kinds
+            ok = not lost and not nonconst_store and not single_cas
             ctx.instance("C14.rmw", "%s in %s" % (fl, p), [list(x) for x in lst], "single RMW calls, or constant stores (reset)", ok, cfg)
             if not ok:
                 ctx.violation("C14.rmw", "C14.rmw|%s|%s" % (fl, p.replace("core::", "", 1)),
